@@ -841,6 +841,37 @@ def few_points_cases(draw, tier, zero_dof=False):
 
 
 @st.composite
+def combo_order_cases(draw, tier):
+    """Lists of models whose combinations differ in size, in either order, with explicit windows of
+    5..8 points: the result must not depend on which combination is listed first being too large for
+    the window (seeded C17-s13: a short-circuit on the first combination only)."""
+    case = draw(few_points_cases(tier, zero_dof=True))
+    # mostly the larger model first: that is the order in which a too-small window for the first
+    # combination and a fitting later one can occur at all
+    pk = draw(st.sampled_from([["pseudo_voigt", "gaussian"]] * 3 + [["gaussian", "pseudo_voigt"]]))
+    bk = draw(st.sampled_from([["quadratic", "linear"]] * 3 + [["linear", "quadratic"]]))
+    case["models"] = {
+        "peak": {"form": draw(st.sampled_from(["list", "tuple"])),
+                 "items": [{"kind": k, "as": "name", "prefix": ""} for k in pk]},
+        "background": {"form": draw(st.sampled_from(["list", "tuple"])),
+                       "items": [{"kind": k, "as": "name", "prefix": ""} for k in bk]},
+    }
+    x = grid_x(case["grid"])
+    ranges = []
+    for e in case["estimates"]:
+        k = draw(st.sampled_from([5, 6, 6, 6, 6, 7, 8]))
+        j = int(np.argmin(np.abs(x - e)))
+        i0 = min(max(j - k // 2, 0), len(x) - k)
+        ranges.append([float(x[i0]), float(np.nextafter(x[i0 + k - 1], np.inf))])
+    case["windows"] = {"mode": "explicit", "ranges": ranges}
+    case["poison"] = draw(st.integers(0, 5))
+    case["poison_seed"] = draw(st.integers(0, 2**32 - 1))
+    # lenient requirements: whether some combination succeeds should depend on the window, not on noise
+    case["reqs"] = {"min_p": 0.0, "max_w": 2.0, "min_w": 0.0}
+    return case
+
+
+@st.composite
 def tiny_window_cases(draw, tier):
     """Estimates inside the data, default parameters; at least one window with 0..3 points."""
     case = draw(base_case(40, 120, 3, grid_kinds=("uniform", "uniform", "jitter"),
@@ -1086,7 +1117,16 @@ def _mixed(summary, n_results):
 
 
 def _run_and_analyse(case, removal=True):
+    w = case.get("windows", {})
+    if (w.get("mode") == "explicit" and len(case["estimates"]) >= 2 and not case.get("_reordered")
+            and math.floor(sum(case["estimates"]) * 1e3) % 2 == 0):
+        # explicit windows do not need ascending estimates (only the automatic windows do): every other
+        # such case lists its peaks from the right (seeded C17-s14: the sortedness refusal moved up front)
+        case = dict(case, estimates=list(reversed(case["estimates"])), _reordered=True,
+                    windows=dict(w, ranges=list(reversed(w["ranges"]))))
     labels = case_labels(case)
+    if case.get("_reordered"):
+        labels.append("estimates-descending")
     b = build(case)
     results = call_fit(b)
     summary = analyse(case, b, results, labels, removal=removal)
@@ -1435,6 +1475,10 @@ FACETS = [
           strategy=lambda tier: few_points_cases(tier, zero_dof=True).filter(_zero_dof_region),
           quick=(4, 12), thorough=(16, 60), shrink=False, min_nontrivial=0.2,
           doc="windows holding exactly as many points as the model has parameters"),
+    Facet("combo_order", check_independence, strategy=lambda tier: combo_order_cases(tier),
+          quick=(4, 6), thorough=(16, 40), shrink=False, min_nontrivial=0.0,
+          doc="pseudo-Voigt/Gaussian x quadratic/linear lists in either order on windows of 5..8 points: the "
+              "result is that of the first combination that succeeds on its own (or of one of them if none does)"),
     Facet("guess_fraction", check_coherence, strategy=lambda tier: guess_fraction_cases(tier),
           quick=(1, 25), thorough=(4, 80), shrink=True, min_nontrivial=0.0,
           doc="custom guess_background_fraction below 1/3 with windows of 6..40 points"),
